@@ -230,10 +230,15 @@ pub fn run(run: &Run) {
     par_each(&small, |i, skel| {
         let dir = root.join(format!("{:?}", std::thread::current().id()).replace(|c: char| !c.is_ascii_alphanumeric(), ""));
         let fors: usize = skel.iter().map(|s| s.fors()).sum();
-        for (is_function, with_main, form) in [(true, false, 0), (false, false, 1), (false, true, 0)] {
-            let case = json!({"kind": "skeleton-runner", "index": i, "function": is_function, "main": with_main, "form": form, "unroll": unroll});
+        let atoms: usize = skel.iter().map(|s| s.atoms()).sum();
+        // The last two variants use tuple declarations as atoms (sugar, templates only).
+        for (is_function, with_main, form, atom_kind) in [(true, false, 0, 0), (false, false, 1, 0), (false, true, 0, 0), (false, false, 0, 5), (false, true, 2, 5)] {
+            let case = json!({"kind": "skeleton-runner", "index": i, "function": is_function, "main": with_main, "form": form, "unroll": unroll, "atom_kind": atom_kind});
             run.watch(&case);
-            let def = marker_def_for(skel, is_function, Vec::new(), true, vec![form; fors]);
+            let def = marker_def_for(skel, is_function, vec![atom_kind; atoms], true, vec![form; fors]);
+            if super::c10::has_bare_declaration(&def.body) || (atom_kind == 5 && has_bare_atom(&def.body)) {
+                continue;
+            }
             let (vs, stats) = check_def_via_runner(&def, unroll, with_main, &dir, &case);
             run.eval(1);
             run.add_traces(stats.paths as u64);
@@ -244,6 +249,23 @@ pub fn run(run: &Run) {
     });
     let _ = std::fs::remove_dir_all(&root);
     run.assume("paths are explored up to the unrolling bound; longer iterations are covered only by the small-scope argument");
+}
+
+/// A declaration (here: a tuple declaration) cannot be an unbraced body.
+fn has_bare_atom(nodes: &[crate::space::prog::Node]) -> bool {
+    use crate::space::prog::{Body, Node};
+    fn body(b: &Body) -> bool {
+        match b {
+            Body::Bare(n) => matches!(n.as_ref(), Node::Atom(_)) || has_bare_atom(std::slice::from_ref(n.as_ref())),
+            Body::Braced(ns) => has_bare_atom(ns),
+        }
+    }
+    nodes.iter().any(|n| match n {
+        Node::Atom(_) => false,
+        Node::If { then, els, .. } => body(then) || els.as_ref().map(body).unwrap_or(false),
+        Node::While { body: b, .. } | Node::For { body: b, .. } => body(b),
+        Node::Block(ns) => has_bare_atom(ns),
+    })
 }
 
 pub fn check_def_via_runner(def: &Def, unroll: usize, with_main: bool, dir: &std::path::Path, case: &Value) -> (Vec<Violation>, PathStats) {
@@ -284,7 +306,8 @@ pub fn replay(case: &Value) -> Vec<Violation> {
         let out = match skels.get(case["index"].as_u64().unwrap_or(0) as usize) {
             Some(skel) => {
                 let fors: usize = skel.iter().map(|s| s.fors()).sum();
-                let def = marker_def_for(skel, case["function"].as_bool().unwrap_or(true), Vec::new(), true, vec![case["form"].as_u64().unwrap_or(0) as usize; fors]);
+                let atoms: usize = skel.iter().map(|s| s.atoms()).sum();
+                let def = marker_def_for(skel, case["function"].as_bool().unwrap_or(true), vec![case["atom_kind"].as_u64().unwrap_or(0) as usize; atoms], true, vec![case["form"].as_u64().unwrap_or(0) as usize; fors]);
                 check_def_via_runner(&def, case["unroll"].as_u64().unwrap_or(2) as usize, case["main"].as_bool().unwrap_or(false), &root, case).0
             }
             None => Vec::new(),
